@@ -215,6 +215,27 @@ def h_opt_or_else(tr, c, a, dty):
     return merge(is_some, o, v), land([lnot(is_some), p])
 
 
+def h_opt_map_or(tr, c, a, dty):
+    o, default, clo = a[0], a[1], a[2]
+    sm = o.variants.get(1)
+    if not sm:
+        return default, "false"
+    v, p = apply(tr, clo, [sm[0]])
+    is_some = "(= %s 1)" % o.disc
+    return merge(is_some, v, default), land([is_some, p])
+
+
+def h_opt_map_or_else(tr, c, a, dty):
+    o, dclo, clo = a[0], a[1], a[2]
+    dv, dp = apply(tr, dclo, [])
+    sm = o.variants.get(1)
+    if not sm:
+        return dv, dp
+    v, p = apply(tr, clo, [sm[0]])
+    is_some = "(= %s 1)" % o.disc
+    return merge(is_some, v, dv), lor([land([is_some, p]), land([lnot(is_some), dp])])
+
+
 def h_opt_or(tr, c, a, dty):
     o, alt = a[0], a[1]
     return merge("(= %s 1)" % o.disc, o, alt), "false"
@@ -275,6 +296,8 @@ STUBS = [
     (r"<.+ as Deref>::deref", h_identity),
     (r"(?:std|core)::option::Option::<.+>::map(?:::<.+>)?", h_opt_map),
     (r"(?:std|core)::option::Option::<.+>::and_then(?:::<.+>)?", h_opt_and_then),
+    (r"(?:std|core)::option::Option::<.+>::map_or(?:::<.+>)?", h_opt_map_or),
+    (r"(?:std|core)::option::Option::<.+>::map_or_else(?:::<.+>)?", h_opt_map_or_else),
     (r"(?:std|core)::option::Option::<.+>::or_else(?:::<.+>)?", h_opt_or_else),
     (r"(?:std|core)::option::Option::<.+>::or", h_opt_or),
     (r"<.+ as Fn(?:Mut|Once)?<.+>>::call(?:_mut|_once)?", h_fn_call),
